@@ -41,6 +41,15 @@ def direct(ctx, strings):
             ctx.violation('harness failure in the direct run', dict(text=s, result=str(r)[:300])); continue
         for what in r.get('bad', []):
             ctx.violation(what['what'], dict(text=s, **what), dict(kind=what['kind'], text=s, exc=what.get('exc')))
+    EMPTY = [('a: &x\nb: 1\n', {'a': None, 'b': 1}), ('a: &x\nb: *x\n', {'a': None, 'b': None}), ('- &x\n- *x\n- 2\n', [None, None, 2]), ('{a: &x , b: *x}\n', {'a': None, 'b': None}),
+             ('[&x , 1]\n', [None, 1]), ('&x\n', None), ('? &k\n: v\n', {None: 'v'}), ('a: !!str\n', {'a': ''}), ('a: !!null\n', {'a': None}), ('a:\nb: ~\n', {'a': None, 'b': None}),
+             ('- &x !!str\n- *x\n', ['', '']), ('- !!str &x\n- *x\n', ['', '']), ('[ , 1]'.replace(' ,', '&y ,'), [None, 1]), ('{&k : v}\n', {None: 'v'}), ('? \n: &v\n', {None: None}),
+             ('--- &x\n...\n', None), ('- &x\n  - 1\n', [[1]]), ('a: &x\n  b: 1\n', {'a': {'b': 1}})]
+    res = vlib.run_impl('c08direct', [['empty', t, repr(v)] for t, v in EMPTY])
+    for (t, v), r in zip(EMPTY, res):
+        ctx.count('direct_empty')
+        for what in (r.get('bad', []) if isinstance(r, dict) else [dict(kind='harness', what=str(r)[:200])]):
+            ctx.violation(what['what'], dict(text=t, **what), dict(kind=what['kind'], text=t))
     # the same typing checks on the stock classes after subclasses registered implicit resolvers of their own (separate workers)
     hist = [s for s in matched if len(s) < 12][:ctx.n(1500, 15000)] + ['1e3', '-2E5', '6e23', '1e+3', 'xx', 'anything', '12e03', '1E3']
     res = vlib.run_impl('c08direct', [['hist', s] for s in hist])
